@@ -67,6 +67,16 @@ def gen_cases(tier, seed):
                     if solver == "ConjugateGradient" and pg:
                         continue
                     cases.append(dict(kind="lls", A=A, solver=solver, step=STEPV[solver][0], lamda=lam, z=False, proxg=pg, G=None, x=False))
+    # one operator object used for two solves, its matrix overwritten in place in between (alternating least squares):
+    # the second solve must minimise the objective of ONE operator - the updated one (the library holds a reference) or,
+    # if a library chose to copy, the old one - not a mixture of A and a stale A.H
+    for A in ("real32", "sym2"):
+        for solver in SOLVERS:
+            for lam in (0, 0.5):
+                for pg in (None, "l1"):
+                    if solver == "ConjugateGradient" and pg:
+                        continue
+                    cases.append(dict(kind="lls-reuse", A=A, solver=solver, step=STEPV[solver][0], lamda=lam, z=False, proxg=pg, G=None, x=False))
     # warm starts: the initial x as the minimiser of the smooth part, as the minimiser itself, and a generic vector
     for A in ("identity", "multiply", "real32"):
         for solver in SOLVERS:
@@ -176,8 +186,46 @@ def no_return_key(case):
     return dict(site="LinearLeastSquares/" + s, when=w + ", no return")
 
 
+def run_reuse(case, seed):
+    import sigpy as sp
+    A, Am, y, z, G, Gm, shp, dt = setup(case, seed)
+    viol = []
+    site, when = classify(case)
+    site = "LinearLeastSquares/" + site
+    lam, kind = case["lamda"], case["proxg"]
+    par = PAR.get(kind)
+    kw = dict(lamda=lam, solver=case["solver"], tol=0, show_pbar=False, max_iter=1500 if case["solver"] == "ADMM" else 4000)
+    if kind:
+        kw["proxg"] = make_prox(kind, shp)
+    if case["solver"] == "ADMM":
+        kw["rho"] = 1.0
+    np.random.seed((seed + 12345) % 2 ** 32)
+    sp.app.LinearLeastSquares(A, y.copy(), **kw).run()
+    A.H, A.N          # (whatever the first solve memoised stays memoised)
+    Am_old = Am.copy()
+    Am[...] = 0.7 * Am[::-1] + 0.1          # the caller updates the matrix in place
+    y2 = (y[::-1] * 0.5 + 0.2).copy()
+    if kind:
+        kw["proxg"] = make_prox(kind, shp)
+    np.random.seed((seed + 12345) % 2 ** 32)
+    x = sp.app.LinearLeastSquares(A, y2.copy(), **kw).run()
+    xv = np.asarray(x).ravel().astype(complex)
+    gaps = []
+    for label, Mx in (("updated", Am), ("old", Am_old)):
+        xr, w, Pr, D, gap = convex.solve(Mx.astype(complex), y2.ravel().astype(complex), kind, par, None, lam, None, gap_tol=1e-12)
+        P = convex.primal(Mx.astype(complex), y2.ravel().astype(complex), kind, par, None, lam, None, xv, feas_tol=1e-6) if np.all(np.isfinite(xv)) else float("inf")
+        gaps.append((label, P - D, 1e-5 * max(1.0, abs(D))))
+    if not any(g <= t for _, g, t in gaps):
+        viol.append(dict(oracle="objective-gap", key=dict(site=site, when=when + "+matrix overwritten between two solves"),
+                         detail="second solve on the same operator after its matrix was overwritten in place: the result minimises neither "
+                                "the updated problem (gap %.3g) nor the old one (gap %.3g) | %s" % (gaps[0][1], gaps[1][1], case)))
+    return dict(states=2, transitions=2, nontrivial=True, outcome=("reuse:" + ("updated" if gaps[0][1] <= gaps[0][2] else "old")) if not viol else "violation:objective-gap", viol=viol)
+
+
 def run_case(case, seed):
     import sigpy as sp
+    if case["kind"] == "lls-reuse":
+        return run_reuse(case, seed)
     A, Am, y, z, G, Gm, shp, dt = setup(case, seed)
     viol = []
     site, when = classify(case)
